@@ -2,6 +2,7 @@ package main
 
 import (
 	"context"
+	"errors"
 	"fmt"
 	"sort"
 	"strings"
@@ -26,6 +27,7 @@ import (
 	sched "sigs.k8s.io/karpenter/pkg/controllers/provisioning/scheduling"
 	"sigs.k8s.io/karpenter/pkg/controllers/state"
 	"sigs.k8s.io/karpenter/pkg/events"
+	"sigs.k8s.io/karpenter/pkg/operator/options"
 	"sigs.k8s.io/karpenter/pkg/scheduling"
 	"sigs.k8s.io/karpenter/pkg/state/virtualpods"
 	"sigs.k8s.io/karpenter/pkg/test"
@@ -59,12 +61,17 @@ type sPool struct {
 	Taints     []string          `json:"taints,omitempty"`
 	LimitCPU   string            `json:"limit_cpu,omitempty"`
 	LimitNodes string            `json:"limit_nodes,omitempty"`
+	LimitMem   string            `json:"limit_memory,omitempty"`
+	Startup    bool              `json:"startup_taint,omitempty"`
 	Types      []jIT             `json:"instance_types"`
 }
 
 type sPod struct {
 	Name         string              `json:"name"`
 	CPU          string              `json:"cpu"`
+	Memory       string              `json:"memory,omitempty"`
+	HostPort     int32               `json:"host_port,omitempty"`
+	VolumeZone   string              `json:"pvc_storage_class_zone,omitempty"`
 	NodeSelector map[string]string   `json:"node_selector,omitempty"`
 	Tolerations  []string            `json:"tolerations,omitempty"`
 	Required     []map[string]string `json:"required_node_affinity_terms,omitempty"`
@@ -72,20 +79,22 @@ type sPod struct {
 }
 
 type sCase struct {
-	Kind     string              `json:"kind"`
-	KfKey    string              `json:"kf_key,omitempty"`
-	Strict   bool                `json:"reserved_strict"`
-	Pools    []sPool             `json:"pools"`
-	Pod      sPod                `json:"pod"`
-	Batch    []sPod              `json:"batch,omitempty"`
-	Levels   []map[string]string `json:"pool_alone_outcome_per_relaxation_level"`
-	Observed map[string]string   `json:"observed_per_worker_count"`
-	Remain   map[string]int64    `json:"true_remaining_cpu_milli_when_placed,omitempty"`
+	Kind      string              `json:"kind"`
+	KfKey     string              `json:"kf_key,omitempty"`
+	Strict    bool                `json:"reserved_strict"`
+	Options   string              `json:"options,omitempty"`
+	Pools     []sPool             `json:"pools"`
+	Pod       sPod                `json:"pod"`
+	Batch     []sPod              `json:"batch,omitempty"`
+	Levels    []map[string]string `json:"pool_alone_outcome_per_relaxation_level"`
+	Observed  map[string]string   `json:"observed_per_worker_count"`
+	Remain    map[string]int64    `json:"true_remaining_cpu_milli_when_placed,omitempty"`
+	ResRemain map[string]int      `json:"true_remaining_reservation_capacity_when_placed,omitempty"`
 }
 
 // errBranch names the branch of addToNewNodeClaim / CanAdd that produced the error (distribution table only).
 func errBranch(msg string) string {
-	for _, k := range []string{"node limits have been exhausted", "all available instance types exceed limits", "did not tolerate",
+	for _, k := range []string{"node limits have been exhausted", "all available instance types exceed limits", "did not tolerate", "incompatible volume requirements",
 		"incompatible requirements", "minValues requirement is not met", "no instance type", "could not be reserved"} {
 		if strings.Contains(msg, k) {
 			return ":" + strings.ReplaceAll(k, " ", "-")
@@ -98,6 +107,8 @@ func errBranch(msg string) string {
 }
 
 type world struct {
+	resMode    bool // batches with reserved offerings: the witness runs under the reservation capacity that truly remains
+	resRemain  []map[string]int
 	limitsMode bool // batches with NodePool cpu limits: the witness of a pod runs under the limit that truly remains
 	c          *kit.Ctx
 	ctx        context.Context
@@ -106,6 +117,11 @@ type world struct {
 	prov       *provisioning.Provisioner
 	pools      []sPool
 	strict     bool
+	bestEffort bool // MinValuesPolicy=BestEffort (context option and scheduler option, as Provisioner.Schedule passes it)
+	ignorePref bool // PreferencePolicy=Ignore -> scheduling.IgnorePreferences
+	gateOff    bool // feature gate ReservedCapacity off
+	daemon     int  // see worldOpts.daemon
+	notFound   bool // NewScheduler answered ErrNodePoolsNotFound (no eligible NodePool)
 	// remaining[i]: cpu limit (milli) that truly remains per limited pool when pod i was placed (limitsMode only)
 	remaining []map[string]int64
 }
@@ -115,12 +131,22 @@ func (w *world) opts(workers int) []sched.Options {
 	if w.strict {
 		o = append(o, sched.DisableReservedCapacityFallback)
 	}
+	if w.bestEffort {
+		o = append(o, sched.MinValuesPolicy(options.MinValuesPolicyBestEffort))
+	}
+	if w.ignorePref {
+		o = append(o, sched.IgnorePreferences)
+	}
 	return o
 }
 
 func (w *world) scheduler(pods []*corev1.Pod, workers int) *sched.Scheduler {
 	cp := lo.Map(pods, func(p *corev1.Pod, _ int) *corev1.Pod { return p.DeepCopy() })
 	s, err := w.prov.NewScheduler(w.ctx, cp, nil, sets.New[types.UID](), w.opts(workers)...)
+	if errors.Is(err, provisioning.ErrNodePoolsNotFound) {
+		w.notFound = true
+		return nil
+	}
 	if err != nil {
 		panic(fmt.Sprintf("c19: NewScheduler: %v", err))
 	}
@@ -154,13 +180,26 @@ func genPoolTypes(r *kit.Rand, pool string, reservedOK bool) []*cloudprovider.In
 			ofs = append(ofs, cloudprovider.Offering{Available: true, Price: float64(cpu),
 				Requirements: scheduling.NewLabelRequirements(map[string]string{v1.CapacityTypeLabelKey: v1.CapacityTypeOnDemand, corev1.LabelTopologyZone: zones[0]})})
 		}
-		its = append(its, fake.NewInstanceType(fmt.Sprintf("%s-t%d-c%d", pool, i, cpu),
+		if r.Chance(1, 10) { // one offering comes with more cpu than the base shape (CapacityOverride)
+			ofs[0].CapacityOverride = corev1.ResourceList{corev1.ResourceCPU: *resource.NewQuantity(cpu*2, resource.DecimalSI)}
+		}
+		it := fake.NewInstanceType(fmt.Sprintf("%s-t%d-c%d", pool, i, cpu),
 			fake.WithResources(corev1.ResourceList{corev1.ResourceCPU: *resource.NewQuantity(cpu, resource.DecimalSI),
 				corev1.ResourceMemory: qty("64Gi"), corev1.ResourcePods: qty("20")}),
-			fake.WithOfferings(ofs...)))
+			fake.WithOfferings(ofs...))
+		if r.Chance(1, 10) {
+			it.Offerings[0].ApplyPriceOverlay(kit.Pick(r, []string{"0.75", "0.125", "4"}))
+		}
+		if r.Chance(1, 12) {
+			it.ApplyCapacityOverlay(corev1.ResourceList{corev1.ResourceMemory: qty("65Gi")})
+		}
+		its = append(its, it)
 	}
 	return its
 }
+
+// usableState: the pool passes ListManaged and NewScheduler's filter (it may still end up without a template).
+func usableState(st string) bool { return st == "ready" || strings.HasPrefix(st, "its-") }
 
 // poolSpec is one NodePool of a generated world together with the instance types the provider offers for it.
 type poolSpec struct {
@@ -194,8 +233,11 @@ func genPoolSpec(r *kit.Rand, name string, features bool) poolSpec {
 			sp.LimitCPU = kit.Pick(r, []string{"1", "2", "3"})
 		case 1:
 			sp.LimitNodes = kit.Pick(r, []string{"0", "1"})
+		case 2:
+			sp.LimitMem = kit.Pick(r, []string{"4Gi", "64Gi", "1Ti"}) // every type has 64Gi
 		}
 	}
+	sp.Startup = r.Chance(1, 8) // startupTaints are not scheduling taints: they must not keep the pod off the pool
 	switch {
 	case r.Chance(1, 16):
 		sp.State = "not-ready"
@@ -207,6 +249,11 @@ func genPoolSpec(r *kit.Rand, name string, features bool) poolSpec {
 		sp.State = "static"
 	case r.Chance(1, 24):
 		sp.State = "deleting"
+	case r.Chance(1, 24):
+		sp.State = "unmanaged" // nodeClassRef of another provider: not listed by ListManaged
+	case r.Chance(1, 12):
+		// Ready pool whose instance types cannot be resolved / are empty: it gets no template
+		sp.State = kit.Pick(r, []string{"its-error", "its-unevaluated", "its-empty"})
 	}
 	return poolSpec{sp, genPoolTypes(r, name, features)}
 }
@@ -218,7 +265,7 @@ func newWorld(r *kit.Rand, features bool) *world {
 	ready := 0
 	for i := 0; i < nPools; i++ {
 		ps := genPoolSpec(r, poolNames[perm[i]], features)
-		if i == nPools-1 && ready == 0 {
+		if i == nPools-1 && ready == 0 && !r.Chance(1, 12) { // rarely: no NodePool is eligible at all
 			ps.State = "ready"
 		}
 		if ps.State == "ready" {
@@ -226,7 +273,17 @@ func newWorld(r *kit.Rand, features bool) *world {
 		}
 		specs = append(specs, ps)
 	}
-	return buildWorld(specs, !r.Chance(1, 4))
+	return buildWorldOpts(specs, worldOpts{strict: !r.Chance(1, 4), bestEffort: features && r.Chance(1, 5), ignorePref: r.Chance(1, 6),
+		gateOff: features && r.Chance(1, 8), daemon: r.Intn(4)})
+}
+
+type worldOpts struct {
+	strict, bestEffort, ignorePref, gateOff bool
+	daemon                                  int // 1: a DaemonSet for every node, 2: one selecting team=x with a host port; else none
+}
+
+func buildWorld(specs []poolSpec, strict bool) *world {
+	return buildWorldOpts(specs, worldOpts{strict: strict})
 }
 
 // readCondition reads the NodePool back from the API and returns the raw status of its Ready condition.
@@ -243,9 +300,27 @@ func readCondition(ctx context.Context, cl client.Client, name string) string {
 	return "absent"
 }
 
-func buildWorld(specs []poolSpec, strict bool) *world {
-	ctx := kit.Context()
-	w := &world{ctx: ctx, cl: kit.NewClient(interceptor.Funcs{}), cp: fake.NewCloudProvider(), strict: strict}
+func buildWorldOpts(specs []poolSpec, o worldOpts) *world {
+	fields := test.OptionsFields{}
+	if o.bestEffort {
+		fields.MinValuesPolicy = lo.ToPtr(options.MinValuesPolicyBestEffort)
+	}
+	if o.gateOff {
+		fields.FeatureGates.ReservedCapacity = lo.ToPtr(false)
+	}
+	ctx := options.ToContext(context.Background(), test.Options(fields))
+	w := &world{ctx: ctx, cl: kit.NewClient(interceptor.Funcs{}), cp: fake.NewCloudProvider(), strict: o.strict,
+		bestEffort: o.bestEffort, ignorePref: o.ignorePref, gateOff: o.gateOff, daemon: o.daemon}
+	switch o.daemon {
+	case 1:
+		kit.Apply(ctx, w.cl, test.DaemonSet(test.DaemonSetOptions{ObjectMeta: metav1.ObjectMeta{Name: "ds-all"}, PodOptions: test.PodOptions{
+			ResourceRequirements: corev1.ResourceRequirements{Requests: corev1.ResourceList{corev1.ResourceCPU: qty("300m")}},
+			Tolerations:          []corev1.Toleration{{Operator: corev1.TolerationOpExists}}}}))
+	case 2:
+		kit.Apply(ctx, w.cl, test.DaemonSet(test.DaemonSetOptions{ObjectMeta: metav1.ObjectMeta{Name: "ds-team-x"}, PodOptions: test.PodOptions{
+			ResourceRequirements: corev1.ResourceRequirements{Requests: corev1.ResourceList{corev1.ResourceCPU: qty("1")}},
+			NodeSelector:         map[string]string{teamKey: "x"}, HostPorts: []int32{8080}}}))
+	}
 	clk := clock.NewFakeClock(time.Unix(1_700_000_000, 0))
 	for _, ps := range specs {
 		sp := ps.sPool
@@ -272,6 +347,15 @@ func buildWorld(specs []poolSpec, strict bool) *world {
 		if sp.LimitNodes != "" {
 			np.Spec.Limits = v1.Limits{"nodes": qty(sp.LimitNodes)}
 		}
+		if sp.LimitMem != "" {
+			np.Spec.Limits = v1.Limits{corev1.ResourceMemory: qty(sp.LimitMem)}
+		}
+		if sp.Startup {
+			np.Spec.Template.Spec.StartupTaints = []corev1.Taint{{Key: "startup", Value: "true", Effect: corev1.TaintEffectNoSchedule}}
+		}
+		if sp.State == "unmanaged" {
+			np.Spec.Template.Spec.NodeClassRef = &v1.NodeClassReference{Group: "other.example.com", Kind: "OtherNodeClass", Name: "x"}
+		}
 		if sp.State == "static" {
 			np.Spec.Replicas = lo.ToPtr(int64(1))
 		}
@@ -295,10 +379,18 @@ func buildWorld(specs []poolSpec, strict bool) *world {
 			}
 		}
 		sp.Ready = readCondition(ctx, w.cl, sp.Name)
-		if (sp.Ready == "True") != (sp.State == "ready" || sp.State == "static" || sp.State == "deleting") {
+		if (sp.Ready == "True") != (usableState(sp.State) || sp.State == "static" || sp.State == "deleting" || sp.State == "unmanaged") {
 			panic(fmt.Sprintf("c19: pool %s state %s but Ready condition in the API is %s", sp.Name, sp.State, sp.Ready))
 		}
 		w.cp.InstanceTypesForNodePool[sp.Name] = ps.its
+		switch sp.State {
+		case "its-error":
+			w.cp.ErrorsForNodePool[sp.Name] = fmt.Errorf("describing instance types: throttled")
+		case "its-unevaluated":
+			w.cp.ErrorsForNodePool[sp.Name] = cloudprovider.NewUnevaluatedNodePoolError(sp.Name)
+		case "its-empty":
+			w.cp.InstanceTypesForNodePool[sp.Name] = []*cloudprovider.InstanceType{}
+		}
 		sp.Types = jITs(ps.its, func(string) bool { return false })
 		w.pools = append(w.pools, sp)
 	}
@@ -323,6 +415,9 @@ func genSelector(r *kit.Rand, w *world) map[string]string {
 			if p.State == "ready" {
 				ready = append(ready, p)
 			}
+		}
+		if len(ready) == 0 {
+			ready = w.pools
 		}
 		p := kit.Pick(r, ready)
 		m := map[string]string{}
@@ -402,12 +497,35 @@ func genPod(r *kit.Rand, w *world, idx int, prefs bool) (*corev1.Pod, sPod) {
 	}
 	opts := test.PodOptions{ObjectMeta: metav1.ObjectMeta{Name: sp.Name, UID: types.UID("uid-" + sp.Name)},
 		ResourceRequirements: corev1.ResourceRequirements{Requests: corev1.ResourceList{corev1.ResourceCPU: qty(sp.CPU)}}}
+	if r.Bool() {
+		sp.Memory = kit.Pick(r, []string{"64Mi", "1Gi", "1Gi", "8Gi"})
+		opts.ResourceRequirements.Requests[corev1.ResourceMemory] = qty(sp.Memory)
+	}
+	if r.Bool() {
+		opts.Phase = corev1.PodPending
+	}
+	if r.Chance(1, 6) {
+		sp.HostPort = 8080
+		opts.HostPorts = []int32{8080}
+	}
+	tolerateAll := r.Chance(1, 10)
+	if r.Chance(1, 8) { // an unbound PVC whose StorageClass only provisions in one zone: the node must come up there
+		sp.VolumeZone = kit.Pick(r, zones)
+		sc := test.StorageClass(test.StorageClassOptions{ObjectMeta: metav1.ObjectMeta{Name: "sc-" + sp.Name}, Zones: []string{sp.VolumeZone}})
+		pvc := test.PersistentVolumeClaim(test.PersistentVolumeClaimOptions{ObjectMeta: metav1.ObjectMeta{Name: "pvc-" + sp.Name}, StorageClassName: lo.ToPtr(sc.Name)})
+		kit.Apply(w.ctx, w.cl, sc, pvc)
+		opts.PersistentVolumeClaims = []string{pvc.Name}
+	}
 	if len(sel) > 0 {
 		sp.NodeSelector, opts.NodeSelector = sel, sel
 	}
 	for _, name := range lo.Uniq(tolerate) {
 		opts.Tolerations = append(opts.Tolerations, corev1.Toleration{Key: "dedicated", Operator: corev1.TolerationOpEqual, Value: name, Effect: corev1.TaintEffectNoSchedule})
 		sp.Tolerations = append(sp.Tolerations, "dedicated="+name)
+	}
+	if tolerateAll {
+		opts.Tolerations = append(opts.Tolerations, corev1.Toleration{Key: "dedicated", Operator: corev1.TolerationOpExists})
+		sp.Tolerations = append(sp.Tolerations, "dedicated:Exists")
 	}
 	pod := test.UnschedulablePod(opts)
 	if prefs {
@@ -437,7 +555,12 @@ func genPod(r *kit.Rand, w *world, idx int, prefs bool) (*corev1.Pod, sPod) {
 // witness evaluates, for every relaxation level of the pod and every NodePool, the real addToNewNodeClaim restricted to
 // that pool's template on a fresh scheduler.
 func (w *world) witness(pod *corev1.Pod) (glevels []string, jlevels []map[string]string, anyOK bool) {
-	levels := w.scheduler([]*corev1.Pod{pod}, 1).VerifC19RelaxLevels(w.ctx, pod)
+	first := w.scheduler([]*corev1.Pod{pod}, 1)
+	if first == nil { // ErrNodePoolsNotFound: there is no template at all, at any level
+		w.c.Count("branch:new-scheduler:no-eligible-nodepool")
+		return []string{"[]"}, []map[string]string{{}}, false
+	}
+	levels := first.VerifC19RelaxLevels(w.ctx, pod)
 	for _, lp := range levels {
 		var g []string
 		j := map[string]string{}
@@ -465,7 +588,8 @@ func (w *world) witness(pod *corev1.Pod) (glevels []string, jlevels []map[string
 func (w *world) gPools() string {
 	return kit.GListOf(w.pools, func(p sPool) string {
 		ready := map[string]string{"True": "RTrue", "False": "RFalse", "Unknown": "RUnknown", "absent": "RAbsent"}[p.Ready]
-		return fmt.Sprintf("(mkNP %s %s %s %s)", gPool(wPool{p.Name, p.Weight}), ready, kit.GBool(p.State == "static"), kit.GBool(p.State == "deleting"))
+		return fmt.Sprintf("(mkNP %s %s %s %s %s)", gPool(wPool{p.Name, p.Weight}), ready, kit.GBool(p.State == "static"), kit.GBool(p.State == "deleting"),
+			kit.GBool(p.State != "unmanaged"))
 	})
 }
 
@@ -520,7 +644,7 @@ func (w *world) rankOf(name string) int {
 	}
 	var l []pw
 	for _, p := range w.pools {
-		if p.State == "ready" {
+		if usableState(p.State) {
 			l = append(l, pw{p.Name, lo.FromPtr(p.Weight)})
 		}
 	}
@@ -542,9 +666,21 @@ func (w *world) rankOf(name string) int {
 // per pod whose placement is the subject of the property (it opened a NodeClaim, or it failed).
 func runSolve(c *kit.Ctx, r *kit.Rand, w *world, pods []*corev1.Pod, jpods []sPod, kind string, maxTypes int) {
 	w.c = c
+	for _, p := range w.pools {
+		c.Count("world:pool-state=" + p.State)
+		c.Count(fmt.Sprintf("world:pool-fields:limit=%s,startupTaint=%v,minValues=%v", lo.Ternary(p.LimitCPU != "", "cpu", lo.Ternary(p.LimitNodes != "", "nodes", lo.Ternary(p.LimitMem != "", "memory", "default"))), p.Startup, p.MinValues != nil))
+	}
+	c.Count("world:options:" + w.optString() + fmt.Sprintf(" reservedStrict=%v", w.strict))
+	for _, p := range jpods {
+		c.Count(fmt.Sprintf("world:pod-fields:memory=%v,hostPort=%v,tolerations=%v,pvcZone=%v", p.Memory != "", p.HostPort != 0, len(p.Tolerations) > 0, p.VolumeZone != ""))
+	}
 	perWorker := make([][]string, len(workerCounts))
 	for k, n := range workerCounts {
 		s := w.scheduler(pods, n)
+		if s == nil { // ErrNodePoolsNotFound: Provisioner.Schedule marks every pod unschedulable
+			perWorker[k] = lo.Map(pods, func(*corev1.Pod, int) string { return "failed" })
+			continue
+		}
 		batch := lo.Map(pods, func(p *corev1.Pod, _ int) *corev1.Pod { return p.DeepCopy() })
 		sctx, cancel := context.WithTimeout(w.ctx, time.Minute)
 		results, err := s.Solve(sctx, batch)
@@ -557,6 +693,9 @@ func runSolve(c *kit.Ctx, r *kit.Rand, w *world, pods []*corev1.Pod, jpods []sPo
 			if w.limitsMode {
 				w.trueRemaining(results, pods)
 			}
+			if w.resMode {
+				w.trueReservations(results, pods)
+			}
 			w.pipeline(c, results, kind, maxTypes)
 		}
 	}
@@ -568,6 +707,9 @@ func runSolve(c *kit.Ctx, r *kit.Rand, w *world, pods []*corev1.Pod, jpods []sPo
 		restore := func() {}
 		if w.limitsMode {
 			restore = w.setLimits(w.remaining[i])
+		}
+		if w.resMode {
+			restore = w.setReservations(w.resRemain[i])
 		}
 		glevels, jlevels, anyOK := w.witness(pod)
 		restore()
@@ -594,12 +736,15 @@ func runSolve(c *kit.Ctx, r *kit.Rand, w *world, pods []*corev1.Pod, jpods []sPo
 		if placed && w.rankOf(strings.TrimPrefix(o, "placed:")) > 0 || o == "deferred" {
 			key = "S:" + w.gPools() + kit.GList(glevels)
 		}
-		sc := sCase{Kind: kind, Strict: w.strict, Pools: w.pools, Pod: jpods[i], Levels: jlevels, Observed: jobs}
+		sc := sCase{Kind: kind, Strict: w.strict, Options: w.optString(), Pools: w.pools, Pod: jpods[i], Levels: jlevels, Observed: jobs}
 		if len(pods) > 1 {
 			sc.Batch = jpods
 		}
 		if w.limitsMode {
 			sc.Remain = w.remaining[i]
+		}
+		if w.resMode {
+			sc.ResRemain = w.resRemain[i]
 		}
 		c.AddCase(fmt.Sprintf("CaseSolve %s %s %s", w.gPools(), kit.GList(glevels), kit.GList(gobs)), sc, key)
 		if !placed {
@@ -664,6 +809,114 @@ func (w *world) trueRemaining(results sched.Results, pods []*corev1.Pod) {
 			w.remaining[i] = snapshot()
 		}
 	}
+}
+
+// reservedOfferings lists the provider's reserved offerings by reservation id.
+func (w *world) reservedOfferings() map[string][]*cloudprovider.Offering {
+	m := map[string][]*cloudprovider.Offering{}
+	for _, its := range w.cp.InstanceTypesForNodePool {
+		for _, it := range its {
+			for _, o := range it.Offerings {
+				if o.CapacityType() == v1.CapacityTypeReserved {
+					m[o.ReservationID()] = append(m[o.ReservationID()], o)
+				}
+			}
+		}
+	}
+	return m
+}
+
+// trueReservations recomputes from the Results alone the capacity every reservation truly has left when each pod of the
+// batch was placed: the offering's ReservationCapacity minus one for every NodeClaim created EARLIER in the pass whose
+// final requirements pin that reservation id. Pods that were deferred or failed are judged under what is left after
+// all claims.
+func (w *world) trueReservations(results sched.Results, pods []*corev1.Pod) {
+	claims := append([]*sched.NodeClaim(nil), results.NewNodeClaims...)
+	sort.Slice(claims, func(i, j int) bool { return claims[i].VerifC19Hostname() < claims[j].VerifC19Hostname() })
+	rem := map[string]int{}
+	for id, ofs := range w.reservedOfferings() {
+		rem[id] = ofs[0].ReservationCapacity
+	}
+	snapshot := func() map[string]int {
+		m := map[string]int{}
+		for k, v := range rem {
+			m[k] = v
+		}
+		return m
+	}
+	w.resRemain = make([]map[string]int, len(pods))
+	for _, nc := range claims {
+		if len(nc.Pods) > 0 {
+			if i := podByUID(pods, nc.Pods[0].UID); i >= 0 {
+				w.resRemain[i] = snapshot()
+			}
+		}
+		if nc.Requirements.Has(cloudprovider.ReservationIDLabel) {
+			for _, id := range nc.Requirements.Get(cloudprovider.ReservationIDLabel).Values() {
+				rem[id]--
+			}
+		}
+	}
+	for i := range pods {
+		if w.resRemain[i] == nil {
+			w.resRemain[i] = snapshot()
+		}
+	}
+}
+
+// setReservations writes the remaining capacities into the provider's offering objects (NewReservationManager reads
+// them when the witness schedulers are built) and returns the function restoring the original values.
+func (w *world) setReservations(rem map[string]int) func() {
+	ofs := w.reservedOfferings()
+	old := map[*cloudprovider.Offering]int{}
+	for id, l := range ofs {
+		for _, o := range l {
+			old[o] = o.ReservationCapacity
+			o.ReservationCapacity = lo.Ternary(rem[id] < 0, 0, rem[id])
+		}
+	}
+	return func() {
+		for o, c := range old {
+			o.ReservationCapacity = c
+		}
+	}
+}
+
+// reservedBatch: a heavier NodePool whose instance type has a reserved offering with capacity 1-2 next to on-demand
+// offerings, a lighter on-demand pool, and a batch of identical pods each needing a NodeClaim of its own. Once the
+// reservation is used up, strict mode must DEFER the next pod (no fall-through to the lighter pool), fallback mode
+// continues on the heavier pool's on-demand offering.
+func reservedBatch(c *kit.Ctx, r *kit.Rand) {
+	cap0 := r.Range(1, 2)
+	mk := func(pool string, reserved bool) []*cloudprovider.InstanceType {
+		ofs := []cloudprovider.Offering{{Available: true, Price: 4, Requirements: scheduling.NewLabelRequirements(map[string]string{
+			v1.CapacityTypeLabelKey: v1.CapacityTypeOnDemand, corev1.LabelTopologyZone: zones[0]})}}
+		if reserved {
+			ofs = append(ofs, cloudprovider.Offering{Available: true, Price: 0.5, ReservationCapacity: cap0, Requirements: scheduling.NewLabelRequirements(map[string]string{
+				v1.CapacityTypeLabelKey: v1.CapacityTypeReserved, corev1.LabelTopologyZone: zones[0], testv1alpha1.LabelReservationID: "res-" + pool})})
+		}
+		return []*cloudprovider.InstanceType{fake.NewInstanceType(pool+"-t0-c4", fake.WithOfferings(ofs...),
+			fake.WithResources(corev1.ResourceList{corev1.ResourceCPU: qty("4"), corev1.ResourceMemory: qty("64Gi"), corev1.ResourcePods: qty("20")}))}
+	}
+	perm := shuffled(r, len(poolNames))
+	hi, lw := poolNames[perm[0]], poolNames[perm[1]]
+	specs := []poolSpec{
+		{sPool{Name: lw, Weight: lo.ToPtr(int32(1)), State: "ready"}, mk(lw, r.Chance(1, 4))},
+		{sPool{Name: hi, Weight: lo.ToPtr(int32(50)), State: "ready"}, mk(hi, true)},
+	}
+	w := buildWorldOpts(specs, worldOpts{strict: !r.Chance(1, 3)})
+	w.resMode = true
+	var pods []*corev1.Pod
+	var sps []sPod
+	for k, n := 0, r.Range(2, 4); k < n; k++ {
+		sp := sPod{Name: fmt.Sprintf("p%d", k), CPU: "3"}
+		pod := test.UnschedulablePod(test.PodOptions{ObjectMeta: metav1.ObjectMeta{Name: sp.Name, UID: types.UID("uid-" + sp.Name),
+			CreationTimestamp: metav1.NewTime(time.Unix(1_700_000_000+int64(k%2), 0))},
+			ResourceRequirements: corev1.ResourceRequirements{Requests: corev1.ResourceList{corev1.ResourceCPU: qty(sp.CPU)}}})
+		kit.Apply(w.ctx, w.cl, pod)
+		pods, sps = append(pods, pod), append(sps, sp)
+	}
+	runSolve(c, r, w, pods, sps, "batch-reserved", 600)
 }
 
 // setLimits writes the given remaining cpu limits into the NodePool objects (the witness schedulers are built from the
@@ -774,6 +1027,10 @@ func limitsBatch(c *kit.Ctx, r *kit.Rand, fixed bool) {
 	runSolve(c, r, w, pods, sps, lo.Ternary(fixed, "corpus-limits", "batch-limits"), r.Range(1, 4))
 }
 
+func (w *world) optString() string {
+	return fmt.Sprintf("minValuesBestEffort=%v ignorePreferences=%v reservedCapacityGateOff=%v daemonset=%d", w.bestEffort, w.ignorePref, w.gateOff, w.daemon)
+}
+
 // kfFor decides whether the strict-reading case of a placed pod is an instance of the known finding.
 func (w *world) kfFor(o string, jobs map[string]string, levels []map[string]string, pod sPod) string {
 	for _, x := range jobs {
@@ -848,15 +1105,15 @@ func (w *world) pipeline(c *kit.Ctx, results sched.Results, kind string, maxType
 		res := names(p.nc.InstanceTypeOptions)
 		minNeeded, unsat, smvErr := p.orig.SatisfiesMinValues(p.nc.Requirements)
 		c.Count(fmt.Sprintf("pipeline:%s:truncate:%s,ok=%v", kind, lo.Ternary(maxTypes < len(p.orig), "truncates", "keeps-all"), ok))
-		c.AddCase(fmt.Sprintf("CasePrice %s %s %s %s %s %s %s %s %s", allowList(), p.gRq, p.gIn, kit.GZ(int64(maxTypes)), "false",
+		c.AddCase(fmt.Sprintf("CasePrice %s %s %s %s %s %s %s %s %s", allowList(), p.gRq, p.gIn, kit.GZ(int64(maxTypes)), kit.GBool(w.bestEffort),
 			kit.GStrs(full), kit.GStrs(res), kit.GBool(ok), gSmv(minNeeded, unsat, smvErr)),
-			pCase{"pipeline-truncate", p.jRq, p.jIn, maxTypes, false, full, res, ok, minNeeded, unsat, smvErr != nil},
+			pCase{"pipeline-truncate", p.jRq, p.jIn, maxTypes, w.bestEffort, full, res, ok, minNeeded, unsat, smvErr != nil},
 			lo.Ternary(maxTypes < len(p.orig), "PP:"+p.gIn+p.gRq+fmt.Sprint(maxTypes), ""))
 		if !ok {
 			continue
 		}
 		claim := p.nc.ToNodeClaim()
-		emitToNodeClaim(c, "pipeline", p.gRq, p.jRq, p.gIn, p.jIn, len(p.orig), maxTypes, names(p.orig), claim)
+		emitToNodeClaim(c, "pipeline", p.gRq, p.jRq, p.gIn, p.jIn, len(p.orig), maxTypes, p.orig, claim)
 	}
 }
 
@@ -868,6 +1125,7 @@ func partSolve(c *kit.Ctx) {
 	// corpus: the smallest input on which the strict reading fails (kept first, see Properties/C19.v)
 	corpusRelax(c)
 	corpusReady(c)
+	corpusNoPool(c)
 	limitsBatch(c, c.Rand.Fork(), true)
 	for i := 0; i < nSingle; i++ {
 		r := c.Rand.Fork()
@@ -890,6 +1148,9 @@ func partSolve(c *kit.Ctx) {
 	}
 	for i := 0; i < nBatch*2/3; i++ {
 		limitsBatch(c, c.Rand.Fork(), false)
+	}
+	for i := 0; i < nBatch/3; i++ {
+		reservedBatch(c, c.Rand.Fork())
 	}
 	for i := 0; i < nBatch; i++ {
 		r := c.Rand.Fork()
@@ -926,6 +1187,21 @@ func corpusReady(c *kit.Ctx) {
 		kit.Apply(w.ctx, w.cl, pod)
 		runSolve(c, c.Rand.Fork(), w, []*corev1.Pod{pod}, []sPod{sp}, "corpus-ready", 600)
 	}
+}
+
+// corpusNoPool: no NodePool is eligible (one not ready, one of another provider, one static): NewScheduler answers
+// ErrNodePoolsNotFound and no pod gets a node.
+func corpusNoPool(c *kit.Ctx) {
+	w := buildWorld([]poolSpec{
+		{sPool{Name: "a", Weight: lo.ToPtr(int32(10)), State: "not-ready"}, []*cloudprovider.InstanceType{simpleType("a-t0-c4")}},
+		{sPool{Name: "b", Weight: lo.ToPtr(int32(5)), State: "unmanaged"}, []*cloudprovider.InstanceType{simpleType("b-t0-c4")}},
+		{sPool{Name: "c", Weight: lo.ToPtr(int32(1)), State: "static"}, []*cloudprovider.InstanceType{simpleType("c-t0-c4")}},
+	}, true)
+	sp := sPod{Name: "p0", CPU: "1"}
+	pod := test.UnschedulablePod(test.PodOptions{ObjectMeta: metav1.ObjectMeta{Name: sp.Name, UID: "uid-p0"},
+		ResourceRequirements: corev1.ResourceRequirements{Requests: corev1.ResourceList{corev1.ResourceCPU: qty(sp.CPU)}}})
+	kit.Apply(w.ctx, w.cl, pod)
+	runSolve(c, c.Rand.Fork(), w, []*corev1.Pod{pod}, []sPod{sp}, "corpus-no-pool", 600)
 }
 
 // corpusRelax: NodePool "high" (weight 100, team=x) and "low" (weight 1, team=y).
